@@ -22,7 +22,18 @@ type ent struct {
 	expired bool
 }
 
-const theDir = "/d"
+// the directory under test rotates over these; the request path may carry a trailing slash
+var testDirs = []string{"/d", "/buckets/b", "/buckets/b/x"}
+
+var theDir = "/d" // directory under test of the current case (store side)
+var reqDir = "/d" // path handed to the Filer (theDir or theDir + "/")
+
+// patterns whose split is compared with the model in every case (meta characters '[' and '\\' included)
+var splitProbes = []string{"a[bc]", "a\\*b", "[a]b", "ab", "a*b?", "ab?[c]", "\\a", ""}
+
+var stopAnswers = [][]bool{{false}, {true, false}, {true, false, false, false, false, false, false}}
+var stopLimits = []int64{2, 4}
+var grpcReqs = [][2]int64{{3, 2}, {5, 2}, {4, 3}}
 
 var universe = []string{"a", "a b", "ab", "abc", "b", "b0", "ba", "c"} // byte order
 var extraStarts = []string{"", "aa", "zz"}
@@ -115,10 +126,13 @@ func (w *world) populate(dir []ent) {
 		w.put(theDir, e.name, e.expired, false)
 	}
 	for _, n := range []string{"a", "ab", "b", "zz"} {
-		w.put("/d2", n, false, false)
 		w.put("/c", n, false, false)
-		w.put("/d-x", n, false, false)
-		w.put("/d/sub", n, false, false)
+		for _, td := range testDirs {
+			w.put(td+"2", n, false, false)
+			w.put(td+"-x", n, false, false)
+			w.put(td+"/sub", n, false, false)
+			w.put(td+"\x01", n, false, false)
+		}
 	}
 	w.put("/", "d", false, true)
 	w.put("/", "d2", false, true)
@@ -142,7 +156,7 @@ func (w *world) restore(dir []ent, after []string) {
 
 func (w *world) list(dir []ent, start string, incl bool, limit int64, prefix, pat, excl string) obs {
 	w.resetBudget()
-	es, more, err := w.f.ListDirectoryEntries(context.Background(), util.FullPath(theDir), start, incl, limit, prefix, pat, excl)
+	es, more, err := w.f.ListDirectoryEntries(context.Background(), util.FullPath(reqDir), start, incl, limit, prefix, pat, excl)
 	o := obs{more: more, err: errClass(err)}
 	for _, e := range es {
 		o.names = append(o.names, e.Name())
@@ -155,7 +169,7 @@ func (w *world) list(dir []ent, start string, incl bool, limit int64, prefix, pa
 func (w *world) stream(dir []ent, start string, incl bool, limit int64, prefix, pat, excl string) obs {
 	w.resetBudget()
 	var o obs
-	last, err := w.f.StreamListDirectoryEntries(context.Background(), util.FullPath(theDir), start, incl, limit, prefix, pat, excl, func(e *filer.Entry) bool {
+	last, err := w.f.StreamListDirectoryEntries(context.Background(), util.FullPath(reqDir), start, incl, limit, prefix, pat, excl, func(e *filer.Entry) bool {
 		o.names = append(o.names, e.Name())
 		return true
 	})
@@ -174,7 +188,7 @@ func (w *world) paginateList(dir []ent, limit int64, prefix, pat, excl string) (
 			return nil, false
 		}
 		w.resetBudget()
-		es, more, err := w.f.ListDirectoryEntries(context.Background(), util.FullPath(theDir), start, false, limit, prefix, pat, excl)
+		es, more, err := w.f.ListDirectoryEntries(context.Background(), util.FullPath(reqDir), start, false, limit, prefix, pat, excl)
 		if err != nil {
 			return nil, false
 		}
@@ -201,7 +215,7 @@ func (w *world) paginateStream(dir []ent, limit int64, prefix string) (pages [][
 		}
 		w.resetBudget()
 		names := []string{}
-		last, err := w.f.StreamListDirectoryEntries(context.Background(), util.FullPath(theDir), start, incl, limit, prefix, "", "", func(e *filer.Entry) bool {
+		last, err := w.f.StreamListDirectoryEntries(context.Background(), util.FullPath(reqDir), start, incl, limit, prefix, "", "", func(e *filer.Entry) bool {
 			names = append(names, e.Name())
 			return true
 		})
@@ -214,6 +228,61 @@ func (w *world) paginateStream(dir []ent, limit int64, prefix string) (pages [][
 		pages = append(pages, names)
 		start, incl = last, false
 	}
+}
+
+// StreamListDirectoryEntries with a callback that answers from ans (true once exhausted)
+func (w *world) streamStop(dir []ent, start string, incl bool, limit int64, prefix, pat, excl string, ans []bool) obs {
+	w.resetBudget()
+	var o obs
+	i := 0
+	last, err := w.f.StreamListDirectoryEntries(context.Background(), util.FullPath(reqDir), start, incl, limit, prefix, pat, excl, func(e *filer.Entry) bool {
+		o.names = append(o.names, e.Name())
+		a := true
+		if i < len(ans) {
+			a = ans[i]
+		}
+		i++
+		return a
+	})
+	o.last, o.err = last, errClass(err)
+	o.after = w.rawNames(theDir)
+	w.restore(dir, o.after)
+	return o
+}
+
+// the loop and the callback of FilerServer.ListEntries (weed/server/filer_grpc_server.go:42-84),
+// with the page size as a parameter (the server uses min(PaginationSize, limit))
+func (w *world) grpcList(dir []ent, limit int, pag int64, prefix string) (pages [][]string, ok bool) {
+	defer func() { w.restore(dir, w.rawNames(theDir)) }()
+	lastFileName, includeLastFile := "", false
+	for n := 0; limit > 0; n++ {
+		if n >= maxPages {
+			return nil, false
+		}
+		w.resetBudget()
+		var names []string
+		var err error
+		lastFileName, err = w.f.StreamListDirectoryEntries(context.Background(), util.FullPath(reqDir), lastFileName, includeLastFile, pag, prefix, "", "", func(e *filer.Entry) bool {
+			names = append(names, e.Name())
+			limit--
+			if limit == 0 {
+				return false
+			}
+			return true
+		})
+		if err != nil {
+			return nil, false
+		}
+		if len(names) == 0 {
+			return pages, true
+		}
+		pages = append(pages, names)
+		includeLastFile = false
+	}
+	if pages == nil {
+		pages = [][]string{}
+	}
+	return pages, true
 }
 
 func coqPages(dir []ent, pages [][]string, ok bool) string {
@@ -235,10 +304,26 @@ type spec struct {
 	limits            []int64
 	pageLimits        []int64
 	label             string
+	tdir              int  // index into testDirs
+	slash             bool // request path with a trailing slash
+	stops             []stopReq
+	grpcs             [][2]int64
+}
+
+type stopReq struct {
+	start string
+	incl  bool
+	limit int64
+	ans   []bool
 }
 
 func runCase(out *hx.Out, worlds []*world, sp spec) {
 	w := worlds[sp.kind]
+	theDir = testDirs[sp.tdir]
+	reqDir = theDir
+	if sp.slash {
+		reqDir += "/"
+	}
 	// fresh directory
 	for _, n := range w.rawNames(theDir) {
 		w.del(theDir, n)
@@ -270,6 +355,36 @@ func runCase(out *hx.Out, worlds []*world, sp spec) {
 		pgs = append(pgs, fmt.Sprintf("(Build_pg %d %s %s)", lim, coqPages(sp.dir, pl, okl), coqPages(sp.dir, ps, oks)))
 		out.Count("paginations", 2)
 		out.Count(fmt.Sprintf("pages:%d", len(pl)), 1)
+	}
+	var stops []string
+	for _, q := range sp.stops {
+		o := w.streamStop(sp.dir, q.start, q.incl, q.limit, sp.prefix, sp.pat, sp.excl, q.ans)
+		as := make([]string, len(q.ans))
+		for i, a := range q.ans {
+			as[i] = hx.Bool(a)
+		}
+		stops = append(stops, fmt.Sprintf("(Build_stopreq %s %s %d %s %s%%N %d%%N %d%%N %s%%N)", hx.Str(q.start), hx.Bool(q.incl), q.limit, hx.List(as),
+			codeNames(sp.dir, o.names), nameIdx(sp.dir, o.last), o.err, codeSet(sp.dir, o.after)))
+		out.Count("stop-requests", 1)
+		out.Count(fmt.Sprintf("stop-emitted:%d", len(o.names)), 1)
+	}
+	var grpcs []string
+	for _, g := range sp.grpcs {
+		pg, ok := w.grpcList(sp.dir, int(g[0]), g[1], sp.prefix)
+		grpcs = append(grpcs, fmt.Sprintf("(Build_grpcreq %d %d %s)", g[0], g[1], coqPages(sp.dir, pg, ok)))
+		tot := 0
+		for _, x := range pg {
+			tot += len(x)
+		}
+		if int64(tot) > g[0] {
+			out.Count("grpc-over-limit", 1)
+		}
+		out.Count("grpc-requests", 1)
+	}
+	var splits []string
+	for _, sp0 := range splitProbes {
+		a, b := filer.VerifSplitPattern(sp0)
+		splits = append(splits, fmt.Sprintf("(%s, (%s, %s))", hx.Str(sp0), hx.Str(a), hx.Str(b)))
 	}
 	// oracle table for filepath.Match and splitPattern
 	pp, rest := filer.VerifSplitPattern(sp.pat)
@@ -314,12 +429,13 @@ func runCase(out *hx.Out, worlds []*world, sp spec) {
 	for i, l := range sp.limits {
 		lims[i] = fmt.Sprint(l)
 	}
-	term := fmt.Sprintf("{| kind := %s; dir := %s; prefix := %s; pat := %s; excl := %s; split := (%s, %s); globs := %s; starts := %s; limits := %s%%nat; res := %s%%N; pages := %s |}",
+	term := fmt.Sprintf("{| kind := %s; dir := %s; prefix := %s; pat := %s; excl := %s; split := (%s, %s); globs := %s; starts := %s; limits := %s%%nat; res := %s%%N; pages := %s; stops := %s; grpcs := %s; splits := %s |}",
 		kindT, hx.List(dirT), hx.Str(sp.prefix), hx.Str(sp.pat), hx.Str(sp.excl), hx.Str(pp), hx.Str(rest),
-		hx.List(globs), strList(sp.starts), hx.List(lims), hx.List(res), hx.List(pgs))
-	canon := fmt.Sprintf("%s|%s|p=%s|pat=%s|x=%s|%v|%v|%v", kindNames[sp.kind], strings.Join(canonDir, ","), sp.prefix, sp.pat, sp.excl, sp.starts, sp.limits, sp.pageLimits)
+		hx.List(globs), strList(sp.starts), hx.List(lims), hx.List(res), hx.List(pgs), hx.List(stops), hx.List(grpcs), hx.List(splits))
+	canon := fmt.Sprintf("%s|%s|%v|%s|p=%s|pat=%s|x=%s|%v|%v|%v", kindNames[sp.kind], reqDir, len(sp.stops), strings.Join(canonDir, ","), sp.prefix, sp.pat, sp.excl, sp.starts, sp.limits, sp.pageLimits)
 	out.Add(term, canon, nontrivial, sp.label)
 	out.Count("store:"+kindNames[sp.kind], 1)
+	out.Count("path:"+reqDir, 1)
 	out.Count(fmt.Sprintf("dir-size:%d", len(sp.dir)), 1)
 	nexp := 0
 	for _, e := range sp.dir {
@@ -358,6 +474,14 @@ func witnesses() []spec {
 		one(kGeneric, []ent{{"a", false}, {"b", true}, {"b0", true}, {"ba", false}, {"bb", false}}, "", 3, "b", "", "", "repaired-generic-dup"),
 		one(kLevelDB, []ent{{"a", false}, {"b", false}, {"c", true}}, "", 2, "", "*a", "", "repaired-restart"),
 	}
+	exp4 := []ent{{"a", true}, {"b", false}, {"c", false}, {"d", false}}
+	for _, k := range []int{kLevelDB, kLevelDB2, kLevelDB3, kGeneric} {
+		// callback answers false on its first call: both refill loops call it again
+		ws = append(ws, spec{kind: k, dir: exp4, label: "witness-1-stop-expired-refill", stops: []stopReq{{"", false, 3, []bool{false}}}})
+		ws = append(ws, spec{kind: k, dir: live("a", "b", "c", "d"), excl: "a", label: "witness-1-stop-missed-refill", stops: []stopReq{{"", false, 2, []bool{false}}}})
+	}
+	// gRPC loop: limit 3, page size 2, an expired entry on the last page: 4 entries are sent
+	ws = append(ws, spec{kind: kLevelDB, dir: []ent{{"a", false}, {"b", false}, {"c", true}, {"d", false}, {"e", false}, {"f", false}}, label: "witness-1-grpc-over-limit", grpcs: [][2]int64{{3, 2}}})
 	g := spec{kind: kLevelDB, dir: []ent{{"a", false}, {"b", true}}, starts: []string{""}, limits: []int64{3}, pageLimits: []int64{3}, label: "repaired-stream-lastname"}
 	ws = append(ws, g)
 	return ws
@@ -411,7 +535,14 @@ func main() {
 		if out.Seed >= 1000 {
 			j += shard * out.N
 		}
-		sp := spec{kind: j % nKinds, starts: starts, limits: gridLimits, pageLimits: pageLimits, label: "grid"}
+		// store, directory and slash vary independently of the parity that selects the triple walk
+		sp := spec{kind: (j / 2) % nKinds, starts: starts, limits: gridLimits, pageLimits: pageLimits, label: "grid",
+			tdir: (j / 8) % len(testDirs), slash: (j/24)%2 == 1, grpcs: grpcReqs}
+		for _, lim := range stopLimits {
+			for _, a := range stopAnswers {
+				sp.stops = append(sp.stops, stopReq{"", false, lim, a})
+			}
+		}
 		var t triple
 		if j%2 == 1 {
 			t = all[(offset+(j/2)*17)%len(all)] // 17 is coprime to 70: every 70 odd cases visit every triple
